@@ -102,9 +102,12 @@ func checkHandoff(f lib.Flags, res *lib.Result) {
 	bin := filepath.Join(dir, "handoff")
 	env := append(os.Environ(), "GOFLAGS=-mod=mod", "GOPROXY=off", "GOSUMDB=off", "GOTOOLCHAIN=local")
 	args := []string{"build", "-tags", "verif unit", "-overlay", ov, "-o", bin}
-	if mf := os.Getenv("C08_MODFILE"); mf != "" {
-		args = append(args, "-modfile="+mf)
+	mfArgs, mfErr := modfileArgs(verif, repo, dir)
+	if mfErr != nil {
+		res.Disagree("hook-sites", map[string]any{"kind": "handoff"}, "a go.mod pointing at the tree under test can be written", mfErr.Error())
+		return
 	}
+	args = append(args, mfArgs...)
 	args = append(args, "./cmd/c08/handoff")
 	cmd := exec.Command("go", args...)
 	cmd.Dir = filepath.Join(verif, "harness")
@@ -190,4 +193,36 @@ func checkHandoff(f lib.Flags, res *lib.Result) {
 		res.Disagree("hook-sites", map[string]any{"kind": "handoff"}, "with GOMAXPROCS=1 pipeline B obtains the buffer pipeline A has just Put", fmt.Sprintf("never happened in %d cases", len(rs)))
 	}
 	res.Note(fmt.Sprintf("hand-off variant: built and ran in %.1fs, %d cases, %d with B in A's buffer", time.Since(t0).Seconds(), len(rs), shared))
+}
+
+// modfileArgs: nested `go build`s must compile the tree under test. bin/check passes it in
+// VERIF_REPO; when that is not /repo (a scratch tree), the harness module's `replace
+// github.com/dapr/kit => /repo` is redirected through a temporary go.mod (+ the tree's go.sum).
+func modfileArgs(verif, repo, dir string) ([]string, error) {
+	if mf := os.Getenv("C08_MODFILE"); mf != "" {
+		return []string{"-modfile=" + mf}, nil
+	}
+	if filepath.Clean(repo) == "/repo" {
+		return nil, nil
+	}
+	gm, err := os.ReadFile(filepath.Join(verif, "harness", "go.mod"))
+	if err != nil {
+		return nil, err
+	}
+	md := filepath.Join(dir, "modfile")
+	if err := os.MkdirAll(md, 0o755); err != nil {
+		return nil, err
+	}
+	out := strings.ReplaceAll(string(gm), "=> /repo", "=> "+repo)
+	if err := os.WriteFile(filepath.Join(md, "go.mod"), []byte(out), 0o644); err != nil {
+		return nil, err
+	}
+	sum, err := os.ReadFile(filepath.Join(repo, "go.sum"))
+	if err != nil {
+		return nil, err
+	}
+	if err := os.WriteFile(filepath.Join(md, "go.sum"), sum, 0o644); err != nil {
+		return nil, err
+	}
+	return []string{"-modfile=" + filepath.Join(md, "go.mod")}, nil
 }
